@@ -387,6 +387,9 @@ func MutexLock(l *LockState) {
 	t.req.ncase = 0
 	t.park()
 	l.Held = 1
+	if logLocks {
+		Log(EvLockGrant, int64(uintptr(unsafe.Pointer(l))), 0, 0)
+	}
 }
 
 //go:norace
@@ -425,6 +428,9 @@ func RWRLock(l *LockState) {
 	t.req.ncase = 0
 	t.park()
 	l.Readers++
+	if logLocks {
+		Log(EvLockGrant, int64(uintptr(unsafe.Pointer(l))), 1, 0)
+	}
 }
 
 //go:norace
@@ -451,6 +457,9 @@ func RWLock(l *LockState) {
 	if l.Readers > 0 {
 		t.req.kind = OpWLockWait
 		t.park()
+	}
+	if logLocks {
+		Log(EvLockGrant, int64(uintptr(unsafe.Pointer(l))), 2, 0)
 	}
 }
 
@@ -673,6 +682,16 @@ func SetDaemonYield(b bool) { daemonYield = b }
 
 var daemonYield bool
 
+// EvLockGrant is the event kind logged (when SetLogLocks is on) each time a thread is granted
+// a lock: A = identity of the lock, B = 0 Mutex.Lock, 1 RLock, 2 RWMutex.Lock.
+const EvLockGrant uint8 = 250
+
+var logLocks bool
+
+// SetLogLocks turns the logging of lock grants into the observation log on (used by oracles
+// that must order a client's store update against the sweep's reads).
+func SetLogLocks(b bool) { logLocks = b }
+
 // SetPoolPoints makes sync.Pool.Get a schedule point.
 func SetPoolPoints(b bool) { poolPoints = b }
 
@@ -780,6 +799,7 @@ func resetGlobals() {
 	shadowOn = false
 	shadow = nil
 	daemonYield = false
+	logLocks = false
 	mapOrder = nil
 	poolPoints = false
 	active = true
